@@ -162,6 +162,7 @@ class CreateTable:
         self.pk = []  # list of column names (table-level or column-level)
         self.uniques = []  # list of column-name lists
         self.fks = []  # (cols, table, refcols)
+        self.fk_actions = {}  # (tuple(cols), table) -> {'DELETE': 'CASCADE', ...}
         self.checks = []
         self.if_not_exists = False
         self.as_select = None
@@ -235,6 +236,41 @@ class Parser:
         if t[0] == "kw" and t[1] in ("KEY", "REPLACE", "INDEX", "TEMP", "END"):
             return self.take()[1].lower()
         self.fail("expected identifier")
+
+    def at_word(self, *words):
+        t = self.peek()
+        return t[0] in ("kw", "id") and str(t[1]).upper() in words
+
+    def fk_actions(self):
+        """Trailing clauses of a foreign key: ON DELETE / ON UPDATE <action>, MATCH <name>, [NOT] DEFERRABLE [INITIALLY ...].
+        -> {'DELETE': 'CASCADE', ...}"""
+        out = {}
+        for _h in range(6):
+            if self.at_word("ON") and self.peek(1)[0] in ("kw", "id") and str(self.peek(1)[1]).upper() in ("DELETE", "UPDATE"):
+                self.take()
+                ev = str(self.take()[1]).upper()
+                if self.at_word("SET"):
+                    self.take()
+                    out[ev] = "SET " + str(self.take()[1]).upper()
+                elif self.at_word("NO"):
+                    self.take()
+                    self.take()
+                    out[ev] = "NO ACTION"
+                else:
+                    out[ev] = str(self.take()[1]).upper()
+            elif self.at_word("MATCH"):
+                self.take()
+                self.take()
+            elif self.at_word("DEFERRABLE") or (self.at_word("NOT") and str(self.peek(1)[1]).upper() == "DEFERRABLE"):
+                if self.at_word("NOT"):
+                    self.take()
+                self.take()
+                if self.at_word("INITIALLY"):
+                    self.take()
+                    self.take()
+            else:
+                break
+        return out
 
     def fail(self, msg):
         raise AnalysisError(
@@ -384,6 +420,7 @@ class Parser:
                     t = self.ident()
                     rc = self.paren_idents() if self.at_op("(") else []
                     ct.fks.append((cols, t, rc))
+                    ct.fk_actions[(tuple(cols), t)] = self.fk_actions()
                 elif self.at_kw("CHECK"):
                     self.take()
                     self.expect_op("(")
@@ -472,6 +509,7 @@ class Parser:
                 t = self.ident()
                 rc = self.paren_idents() if self.at_op("(") else []
                 c.references = (t, rc)
+                c.reference_actions = self.fk_actions()
             else:
                 break
         return c
